@@ -624,4 +624,24 @@ def live_lengths(repo: Repo) -> RuleRun:
 
 live_lengths.rule_id = "C06.LIVE-LENGTHS"
 
-RULES = [sections, side_tables, vertex_ownership, assemble_walk, patch_state, delete_skip, geometry_label, precision, user_state_survives, grading_form, geometry_redeclared, vertex_tolerance, grade_idempotent, live_lengths]
+def axis_table(repo: Repo) -> RuleRun:
+    """'hex entries ... with counts and gradings': the twelve edgeGrading numbers are written in blockMesh's edge order, each from the wire of that edge. Same rule as C01.AXIS-TABLE."""
+    from ..report import rebrand
+    from . import c01
+
+    return rebrand(c01.axis_table(repo), PROP, "C06.AXIS-TABLE")
+
+
+axis_table.rule_id = "C06.AXIS-TABLE"
+
+def corner_patches(repo: Repo) -> RuleRun:
+    """'exactly the patches the user declared': a side name addresses the four corners of that side and no fifth. Same rule as C05.CORNER-PATCHES."""
+    from ..report import rebrand
+    from . import c05
+
+    return rebrand(c05.corner_patches(repo), PROP, "C06.CORNER-PATCHES")
+
+
+corner_patches.rule_id = "C06.CORNER-PATCHES"
+
+RULES = [sections, side_tables, vertex_ownership, assemble_walk, patch_state, delete_skip, geometry_label, precision, user_state_survives, grading_form, geometry_redeclared, vertex_tolerance, grade_idempotent, live_lengths, axis_table, corner_patches]
